@@ -68,6 +68,8 @@ inline void *vrealloc(void *p, size_t n) {
 #undef calloc
 #undef realloc
 #undef free
+#define VERIF_PAINT_NEW 1
+#include "../painted.h"
 
 using verif::reg;
 
@@ -273,6 +275,7 @@ int main() {
     std::ios::sync_with_stdio(false);
     std::string line;
     while (std::getline(std::cin, line)) {
+        verif::paintLine(line);   // painted `new` (harness/painted.h)
         std::istringstream is(line);
         std::vector<std::string> t;
         std::string w;
